@@ -2,6 +2,7 @@
 #![allow(unused_imports, dead_code, unused_variables, unused_mut, unreachable_patterns, unused_parens)]
 #![feature(allocator_api)]
 use vstd::prelude::*;
+use vstd::std_specs::cmp::*;
 use std::ffi::OsString;
 use std::ops::Range;
 use std::rc::Rc;
@@ -14,10 +15,50 @@ pub mod prelude {
     #[verifier::external_type_specification]
     #[verifier::external_body]
     pub struct ExOsString(OsString);
+
+    /// A-std-peq: result of `PartialEq::eq` on values of type T (uninterpreted; pinned down for `char` below,
+    /// and by vstd's PartialEqSpec for `&str`)
+    pub uninterp spec fn peq<T>(a: T, b: T) -> bool;
+
+    #[verifier::external_body]
+    pub broadcast proof fn axiom_peq_char(a: char, b: char)
+        ensures #[trigger] peq(a, b) == (a == b),
+    {}
+
+    pub assume_specification<T: PartialEq>[ <[T]>::contains ](s: &[T], x: &T) -> (b: bool)
+        ensures
+            <T as PartialEqSpec>::obeys_eq_spec() ==> b == (exists|i: int| 0 <= i < s@.len() && (#[trigger] s@[i]).eq_spec(x)),
+            b == (exists|i: int| 0 <= i < s@.len() && peq(#[trigger] s@[i], *x));
+
+    pub assume_specification<Idx: Clone>[ <Range<Idx> as Clone>::clone ](r: &Range<Idx>) -> (c: Range<Idx>)
+        ensures
+            call_ensures(Idx::clone, (&r.start,), c.start),
+            call_ensures(Idx::clone, (&r.end,), c.end);
+
+    pub assume_specification[ <OsString as Clone>::clone ](s: &OsString) -> (c: OsString)
+        ensures c == *s;
+
+    /// A-std-oseq: result of `OsString == str` (vstd's uninterpreted PartialEqSpec relation for that impl)
+    pub open spec fn os_eq_str(a: OsString, b: &str) -> bool { PartialEqSpec::<str>::eq_spec(&a, b) }
+
+    /// A-std-oseq: `OsString == str` is a deterministic function of its two arguments
+    #[verifier::external_body]
+    pub proof fn axiom_os_eq_obeys()
+        ensures <OsString as PartialEqSpec<str>>::obeys_eq_spec(),
+    {}
+
+    /// bpaf::Doc (src/buffer.rs): opaque, no unit reads its contents (T8)
+    #[verifier::external_body]
+    pub struct Doc { _opaque: () }
+
+    /// bpaf::meta_youmean::Suggestion: opaque (T8)
+    #[verifier::external_body]
+    pub struct Suggestion { _opaque: () }
 }
 
 pub mod spec {
     use super::*;
+    use super::prelude::*;
     use super::real::*;
 
     pub open spec fn present(st: ItemState) -> bool { !(st is Parsed) }
@@ -44,6 +85,109 @@ pub mod spec {
         }
     }
 
+    /// the name list contains the long name (string contents compared)
+    pub open spec fn long_contains(longs: Seq<&'static str>, l: String) -> bool {
+        exists|i: int| 0 <= i < longs.len() && #[trigger] longs[i]@ == l@
+    }
+
+    impl NamedArg {
+        /// spec of NamedArg::matches_arg: which tokenised items a name set accepts
+        pub open spec fn matches_spec(&self, arg: Arg, adjacent: bool) -> bool {
+            match arg {
+                Arg::Short(s, is_adj, _) => self.short@.contains(s) && (!adjacent || is_adj),
+                Arg::Long(l, is_adj, _) => long_contains(self.long@, l) && (!adjacent || is_adj),
+                Arg::ArgWord(_) | Arg::Word(_) | Arg::PosWord(_) => false,
+            }
+        }
+    }
+
+    impl State {
+        /// i is the leftmost available item satisfying the matcher
+        pub open spec fn first_match(&self, named: NamedArg, adjacent: bool, i: int) -> bool {
+            &&& self.avail(i)
+            &&& named.matches_spec(self.items[i], adjacent)
+            &&& forall|j: int| self.scope.start <= j < i && #[trigger] self.avail(j) ==> !named.matches_spec(self.items[j], adjacent)
+        }
+        pub open spec fn no_match(&self, named: NamedArg, adjacent: bool) -> bool {
+            forall|j: int| #[trigger] self.avail(j) ==> !named.matches_spec(self.items[j], adjacent)
+        }
+        /// ledger of `self` with index i consumed
+        pub open spec fn consumed1(&self, i: int) -> Seq<ItemState> {
+            self.item_state@.update(i, ItemState::Parsed)
+        }
+    }
+
+    /// payload of an item that can serve as the value of a named argument
+    pub open spec fn value_word(a: Arg) -> Option<OsString> {
+        match a {
+            Arg::Word(w) | Arg::ArgWord(w) => Some(w),
+            _ => None,
+        }
+    }
+    /// payload of an item a positional parser may take, with its "came after --" flag
+    pub open spec fn pos_word(a: Arg) -> Option<(bool, OsString)> {
+        match a {
+            Arg::Word(w) => Some((false, w)),
+            Arg::PosWord(w) => Some((true, w)),
+            _ => None,
+        }
+    }
+    /// original text of an item that may be a command name
+    pub open spec fn cmd_word(a: Arg) -> Option<OsString> {
+        match a {
+            Arg::Word(w) | Arg::Short(_, _, w) | Arg::Long(_, false, w) => Some(w),
+            _ => None,
+        }
+    }
+
+    /// item `a` may be the command name `word`: its original text equals it and it is not a `--x=..` form, a value or a word after `--`
+    pub open spec fn cmd_matches(a: Arg, word: &str) -> bool {
+        match cmd_word(a) {
+            Some(w) => os_eq_str(w, word),
+            None => false,
+        }
+    }
+    /// `e` is exactly `Missing[Positional{metavar, help: None} at scope.start in scope]`
+    pub open spec fn is_missing_positional(e: Error, metavar: Metavar, scope: Range<usize>) -> bool {
+        match e.0 {
+            Message::Missing(v) => v.len() == 1 && v[0].position == scope.start && v[0].scope == scope
+                && (match v[0].item { Item::Positional { metavar: mv, help: h } => mv == metavar && h is None, _ => false }),
+            _ => false,
+        }
+    }
+    pub open spec fn is_no_argument(e: Error, k: int, metavar: Metavar) -> bool {
+        match e.0 {
+            Message::NoArgument(p, m) => p == k && m == metavar,
+            _ => false,
+        }
+    }
+
+    impl State {
+        /// i is the first available item of the scope
+        pub open spec fn first_avail(&self, i: int) -> bool {
+            self.avail(i) && forall|j: int| self.scope.start <= j < i ==> !#[trigger] self.avail(j)
+        }
+        /// i is the leftmost available Word/PosWord
+        pub open spec fn first_pos_word(&self, i: int) -> bool {
+            &&& self.avail(i)
+            &&& pos_word(self.items[i]) is Some
+            &&& forall|j: int| self.scope.start <= j < i && #[trigger] self.avail(j) ==> pos_word(self.items[j]) is None
+        }
+        /// everything but `current` is equal
+        pub open spec fn same_but_current(&self, o: State) -> bool {
+            &&& self.items == o.items
+            &&& self.item_state == o.item_state
+            &&& self.remaining == o.remaining
+            &&& self.path == o.path
+            &&& self.scope == o.scope
+            &&& self.comp_eq(o)
+        }
+        #[cfg(not(feature = "autocomplete"))]
+        pub open spec fn comp_eq(&self, o: State) -> bool { true }
+        #[cfg(feature = "autocomplete")]
+        pub open spec fn comp_eq(&self, o: State) -> bool { self.comp == o.comp }
+    }
+
     impl<'a> ArgsIter<'a> {
         pub open spec fn wf(&self) -> bool {
             self.args.wf() && self.args.scope.start <= self.cur
@@ -53,6 +197,7 @@ pub mod spec {
 
 pub mod lemmas {
     use super::*;
+    use super::prelude::*;
     use super::real::*;
     use super::spec::*;
 
@@ -87,7 +232,7 @@ pub mod lemmas {
 
 pub mod real {
     use super::spec::*;
-    broadcast use super::lemmas::ledger;
+    broadcast use {super::lemmas::ledger, super::prelude::axiom_peq_char};
     use super::*;
     use super::prelude::*;
 
@@ -120,6 +265,46 @@ pub mod real {
 
 //@@ type src/args.rs | mod inner | struct ArgsIter
 //@@ unit args.ArgsIter tags=
+//@@ end
+
+//@@ type src/meta_help.rs | struct Metavar
+//@@ unit meta_help.Metavar tags=
+//@@ end
+
+//@@ type src/item.rs | enum ShortLong
+//@@ unit item.ShortLong tags=
+//@@ end
+
+//@@ type src/item.rs | enum Item
+//@@ unit item.Item tags=
+//@@ end
+
+//@@ type src/meta.rs | enum Meta
+//@@ unit meta.Meta tags=
+//@@ end
+
+//@@ type src/info.rs | struct Info
+//@@ unit info.Info tags=
+//@@ end
+
+//@@ type src/params.rs | struct NamedArg
+//@@ unit params.NamedArg tags=
+//@@ end
+
+//@@ type src/error.rs | struct MissingItem
+//@@ unit error.MissingItem tags=
+//@@ end
+
+//@@ type src/error.rs | enum ParseFailure
+//@@ unit error.ParseFailure tags=
+//@@ end
+
+//@@ type src/error.rs | enum Message
+//@@ unit error.Message tags=
+//@@ end
+
+//@@ type src/error.rs | struct Error
+//@@ unit error.Error tags=
 //@@ end
 
 //@@ fn src/args.rs | mod inner | impl State | fn present
@@ -184,6 +369,245 @@ pub mod real {
                 old(self).cur <= self.cur,
                 forall|j: int| old(self).cur <= j < self.cur ==> !self.args.avail(j),
             decreases self.args.scope.end as int - self.cur as int,
+//@@ end
+
+
+//@@ fn src/args.rs | mod inner | impl State | fn items_iter
+//@@ unit args.State.items_iter tags=C01,C05
+//@@ ret r
+//@@ spec
+        requires self.wf(),
+        ensures r.wf(), r.args == self, r.cur == self.scope.start, // #iterates_scope_from_start
+//@@ end
+
+//@@ fn src/args.rs | mod inner | impl State | fn len
+//@@ unit args.State.len tags=C05,C01
+//@@ ret r
+//@@ spec
+        ensures r == self.remaining,
+//@@ end
+
+//@@ fn src/args.rs | mod inner | impl State | fn is_empty
+//@@ unit args.State.is_empty tags=C05
+//@@ ret r
+//@@ spec
+        ensures r == (self.remaining == 0),
+//@@ end
+
+//@@ fn src/args.rs | mod inner | impl State | fn scope
+//@@ unit args.State.scope tags=C05
+//@@ ret r
+//@@ spec
+        ensures r == self.scope,
+//@@ end
+
+//@@ fn src/params.rs | impl NamedArg | fn matches_arg
+//@@ unit params.NamedArg.matches_arg tags=C02,C09,C01
+//@@ ret r
+//@@ spec
+        ensures r == self.matches_spec(*arg, adjacent), // #match_table
+//@@ end
+
+// T5: std's provided `Iterator::find` / `find_map`, written out as the std default loop over `next`
+impl<'a> ArgsIter<'a> {
+    pub fn find<P: Fn(&(usize, &'a Arg)) -> bool>(&mut self, predicate: P) -> (r: Option<(usize, &'a Arg)>)
+        requires
+            old(self).wf(),
+            forall|x: (usize, &'a Arg)| predicate.requires((&x,)),
+        ensures
+            final(self).wf(),
+            final(self).args == old(self).args,
+            r matches Some(q) ==> {
+                &&& old(self).cur <= q.0
+                &&& old(self).args.avail(q.0 as int)
+                &&& *q.1 == old(self).args.items[q.0 as int]
+                &&& predicate.ensures((&q,), true)
+                &&& forall|j: int| old(self).cur <= j < q.0 && #[trigger] old(self).args.avail(j)
+                        ==> predicate.ensures((&(j as usize, &old(self).args.items[j]),), false)
+            },
+            r is None ==> forall|j: int| old(self).cur <= j && #[trigger] old(self).args.avail(j)
+                        ==> predicate.ensures((&(j as usize, &old(self).args.items[j]),), false),
+    {
+        loop
+            invariant
+                self.wf(),
+                self.args == old(self).args,
+                old(self).cur <= self.cur,
+                forall|x: (usize, &'a Arg)| predicate.requires((&x,)),
+                forall|j: int| old(self).cur <= j < self.cur && #[trigger] self.args.avail(j)
+                        ==> predicate.ensures((&(j as usize, &self.args.items[j]),), false),
+            decreases self.args.scope.end as int + 1 - self.cur as int,
+        {
+            match self.next() {
+                Some(x) => {
+                    if predicate(&x) {
+                        return Some(x);
+                    }
+                }
+                None => return None,
+            }
+        }
+    }
+}
+
+//@@ fn src/args.rs | impl State | fn take_flag
+//@@ unit args.State.take_flag tags=C01,C03,C05,C09,C10
+//@@ ret r
+//@@ spec
+        requires old(self).wf(),
+        ensures
+            final(self).wf(), // #preserves_wf
+            r == exists|i: int| #[trigger] old(self).avail(i) && named.matches_spec(old(self).items[i], false), // #found_iff_exists
+            !r ==> *final(self) == *old(self), // #false_leaves_state_unchanged
+            r ==> exists|i: int| {
+                &&& #[trigger] old(self).first_match(*named, false, i) // #consumes_leftmost_match
+                &&& final(self).item_state@ == old(self).consumed1(i)
+                &&& final(self).remaining == old(self).remaining - 1
+                &&& final(self).current == Some(i as usize)
+            },
+            final(self).items == old(self).items && final(self).scope == old(self).scope && final(self).path == old(self).path, // #frame
+//@@ insert after 1 `|arg`
+: &(usize, &Arg)
+//@@ insert after 1 `|arg|`
+-> (b: bool) ensures b == named.matches_spec(*arg.1, false) {
+//@@ insert after 1 `named.matches_arg(arg.1, false)`
+}
+//@@ insert before 1 `self.remove(ix);`
+proof { assert(old(self).first_match(*named, false, ix as int)); }
+//@@ end
+
+
+//@@ fn src/args.rs | impl State | fn take_arg
+//@@ unit args.State.take_arg tags=C01,C02,C03,C05,C09
+//@@ ret r
+//@@ spec
+        requires old(self).wf(),
+        ensures
+            final(self).wf(), // #preserves_wf
+            final(self).items == old(self).items && final(self).scope == old(self).scope && final(self).path == old(self).path, // #frame
+            r matches Ok(None) ==> old(self).no_match(*named, adjacent) && *final(self) == *old(self), // #absent_leaves_state_unchanged
+            (r is Ok && r->Ok_0 is None) == old(self).no_match(*named, adjacent), // #none_iff_no_matching_name
+            r matches Ok(Some(v)) ==> exists|k: int| {
+                &&& #[trigger] old(self).first_match(*named, adjacent, k) // #key_is_leftmost_match
+                &&& old(self).avail(k + 1) // #value_is_next_item
+                &&& value_word(old(self).items[k + 1]) == Some(v) // #value_bytes_equal_item
+                &&& final(self).item_state@ == old(self).item_state@.update(k, ItemState::Parsed).update(k + 1, ItemState::Parsed) // #marks_exactly_key_and_value
+                &&& final(self).remaining == old(self).remaining - 2
+                &&& final(self).current == Some((k + 1) as usize)
+            },
+            r matches Err(e) ==> exists|k: int| {
+                &&& #[trigger] old(self).first_match(*named, adjacent, k) // #error_only_when_name_present
+                &&& !(old(self).avail(k + 1) && value_word(old(self).items[k + 1]) is Some) // #error_only_when_value_missing
+                &&& is_no_argument(e, k, metavar) // #error_is_NoArgument_at_key
+                &&& *final(self) == *old(self) // #error_leaves_state_unchanged
+            },
+//@@ insert after 1 `|arg`
+: &(usize, &Arg)
+//@@ insert after 1 `|arg|`
+-> (b: bool) ensures b == named.matches_spec(*arg.1, adjacent) {
+//@@ insert after 1 `named.matches_arg(arg.1, adjacent)`
+}
+//@@ insert before 1 `let val_ix = key_ix + 1;`
+proof { assert(old(self).first_match(*named, adjacent, key_ix as int)); }
+//@@ end
+
+// T5: std's provided `Iterator::find_map`, written out as the std default loop over `next`
+impl<'a> ArgsIter<'a> {
+    pub fn find_map<B, F: Fn((usize, &'a Arg)) -> Option<B>>(&mut self, f: F) -> (r: Option<B>)
+        requires
+            old(self).wf(),
+            forall|x: (usize, &'a Arg)| f.requires((x,)),
+        ensures
+            final(self).wf(),
+            final(self).args == old(self).args,
+            r matches Some(b) ==> exists|k: int| {
+                &&& old(self).cur <= k
+                &&& #[trigger] old(self).args.avail(k)
+                &&& f.ensures(((k as usize, &old(self).args.items[k]),), Some(b))
+                &&& forall|j: int| old(self).cur <= j < k && #[trigger] old(self).args.avail(j)
+                        ==> f.ensures(((j as usize, &old(self).args.items[j]),), None)
+            },
+            r is None ==> forall|j: int| old(self).cur <= j && #[trigger] old(self).args.avail(j)
+                        ==> f.ensures(((j as usize, &old(self).args.items[j]),), None),
+    {
+        loop
+            invariant
+                self.wf(),
+                self.args == old(self).args,
+                old(self).cur <= self.cur,
+                forall|x: (usize, &'a Arg)| f.requires((x,)),
+                forall|j: int| old(self).cur <= j < self.cur && #[trigger] self.args.avail(j)
+                        ==> f.ensures(((j as usize, &self.args.items[j]),), None),
+            decreases self.args.scope.end as int + 1 - self.cur as int,
+        {
+            match self.next() {
+                Some(x) => {
+                    if let Some(b) = f(x) {
+                        return Some(b);
+                    }
+                }
+                None => return None,
+            }
+        }
+    }
+}
+
+//@@ fn src/args.rs | impl State | fn take_positional_word
+//@@ unit args.State.take_positional_word tags=C01,C03,C05,C09
+//@@ ret r
+//@@ spec
+        requires old(self).wf(),
+        ensures
+            final(self).wf(), // #preserves_wf
+            final(self).items == old(self).items && final(self).scope == old(self).scope && final(self).path == old(self).path, // #frame
+            r matches Ok(t) ==> {
+                &&& old(self).first_pos_word(t.0 as int) // #takes_first_word_skipping_named_items
+                &&& pos_word(old(self).items[t.0 as int]) == Some((t.1, t.2)) // #strict_iff_after_double_dash_and_word_verbatim
+                &&& final(self).item_state@ == old(self).consumed1(t.0 as int) // #marks_exactly_it
+                &&& final(self).remaining == old(self).remaining - 1
+                &&& final(self).current == Some(t.0)
+            },
+            r matches Err(e) ==> {
+                &&& forall|j: int| #[trigger] old(self).avail(j) ==> pos_word(old(self).items[j]) is None // #error_only_when_no_word_available
+                &&& *final(self) == *old(self) // #error_leaves_state_unchanged
+                &&& is_missing_positional(e, metavar, old(self).scope) // #error_is_missing_positional
+            },
+//@@ closure 1 `|(ix, arg)|` as p: (usize, &Arg)
+-> (o: Option<(usize, bool, &OsString)>)
+    ensures
+        o is Some == pos_word(*p.1) is Some,
+        o matches Some(t) ==> t.0 == p.0 && pos_word(*p.1) == Some((t.1, *t.2)),
+//@@ end
+
+//@@ fn src/args.rs | impl State | fn take_cmd
+//@@ unit args.State.take_cmd tags=C01,C05,C08,C09
+//@@ ret r
+//@@ spec
+        requires old(self).wf(),
+        ensures
+            final(self).wf(), // #preserves_wf
+            final(self).items == old(self).items && final(self).scope == old(self).scope && final(self).path == old(self).path, // #frame
+            r == (exists|k: int| #[trigger] old(self).first_avail(k) && cmd_matches(old(self).items[k], word)), // #true_iff_first_available_item_is_the_name
+            r ==> exists|k: int| {
+                &&& #[trigger] old(self).first_avail(k) // #name_must_be_first_unclaimed_item
+                &&& cmd_matches(old(self).items[k], word) // #exact_text_not_posword_not_eq_form
+                &&& final(self).item_state@ == old(self).consumed1(k) // #marks_exactly_it
+                &&& final(self).remaining == old(self).remaining - 1
+                &&& final(self).current == Some(k as usize)
+            },
+            !r ==> final(self).same_but_current(*old(self)) && final(self).current is None, // #failure_leaves_ledger_unchanged
+//@@ insert before 1 `if w == word {`
+proof { axiom_os_eq_obeys(); assert(old(self).first_avail(ix as int)); }
+//@@ end
+
+//@@ fn src/args.rs | mod inner | impl State | fn conflict
+//@@ unit args.State.conflict tags=C07
+//@@ ret r
+//@@ spec
+        requires self.wf(),
+        ensures
+            r matches Some(p) ==> self.first_avail(p.0 as int) && self.item_state[p.0 as int] == ItemState::Conflict(p.1), // #first_available_item_is_conflict
+            r is None ==> forall|k: int| #[trigger] self.first_avail(k) ==> !(self.item_state[k] is Conflict), // #none_iff_first_available_not_conflict
 //@@ end
 
 }
